@@ -16,11 +16,11 @@ Lemma T_Hub_src_hub_tell_close : src_hub_tell_close =
 Proof. reflexivity. Qed.
 
 Lemma T_Hub_src_hub_ask_serve : src_hub_ask_serve =
-  "{ if err := q.checkClosed(); err != nil { return err } select { case <-ctx.Done(): return ctx.Err() case <-q.closed: return q.err case req := <-q.reqs: req.n = fn(ctx, req.resp, req.msg) close(req.done) return nil } }"%string.
+  "{ if err := q.checkClosed(); err != nil { return err } select { case <-ctx.Done(): return ctx.Err() case <-q.closed: return q.err case req := <-q.reqs: hctx, cf := context.WithCancel(ctx) stop := context.AfterFunc(req.ctx, cf) req.n = fn(hctx, req.resp, req.msg) stop() cf() close(req.done) return nil } }"%string.
 Proof. reflexivity. Qed.
 
 Lemma T_Hub_src_hub_ask_deliver : src_hub_ask_deliver =
-  "{ if err := q.checkClosed(); err != nil { return 0, err } req := &serveReq[A]{ msg: msg, resp: respData, done: make(chan struct{}), } select { case <-ctx.Done(): return 0, ctx.Err() case <-q.closed: return 0, q.err case q.reqs <- req: <-req.done return req.n, nil } }"%string.
+  "{ if err := q.checkClosed(); err != nil { return 0, err } req := &serveReq[A]{ ctx: ctx, msg: msg, resp: respData, done: make(chan struct{}), } select { case <-ctx.Done(): return 0, ctx.Err() case <-q.closed: return 0, q.err case q.reqs <- req: <-req.done return req.n, nil } }"%string.
 Proof. reflexivity. Qed.
 
 Lemma T_Hub_src_hub_ask_close : src_hub_ask_close =
